@@ -58,3 +58,26 @@ pub fn find_option(attrs: &[syn::Attribute], name: &str) -> Option<syn::Meta> {
     }
     None
 }
+
+/// input templates of one addressable field (generated alongside the corpus)
+pub struct FieldInfo {
+    pub name: &'static str,
+    pub required: bool,
+    pub multiple: bool,
+    /// value suffixes (appended to the item name) the field accepts / rejects
+    pub valid: &'static [&'static str],
+    pub invalid: &'static [&'static str],
+}
+
+pub struct RecvInfo {
+    pub name: &'static str,
+    pub is_enum: bool,
+    pub allow_unknown: bool,
+    pub has_flatten: bool,
+    pub fields: Vec<FieldInfo>,
+    /// item lists its flatten field accepts
+    pub flat_items: &'static [&'static [&'static str]],
+    /// whole-value suffixes when this receiver is itself a field type
+    pub valid: &'static [&'static str],
+    pub invalid: &'static [&'static str],
+}
